@@ -405,6 +405,8 @@ class Interp:
             return libmodels.call(self, fv.name, args, kwargs)
         if callable(fv):
             return fv(*args, **kwargs)
+        if isinstance(fv, Opaque) and getattr(self.run, "uninterp_libs", False):
+            return Opaque("call", [fv] + list(args) + [(k, v) for k, v in sorted(kwargs.items())])
         self.run.fail("safe.call", f"object of type {type(fv).__name__} is not callable", witness_class="notcallable")
         raise PyRaise("TypeError", "not callable")
 
@@ -842,6 +844,9 @@ class Interp:
         from . import libmodels
         if libmodels.is_arr(a) or libmodels.is_arr(b):
             return libmodels.compare(self, op, a, b)
+        if (isinstance(a, Opaque) or isinstance(b, Opaque)) and isinstance(op, (ast.Lt, ast.LtE, ast.Gt, ast.GtE)) \
+                and getattr(self.run, "uninterp_libs", False):
+            return Opaque("cmp:" + type(op).__name__, [a, b])
         if isinstance(op, (ast.Is, ast.IsNot)):
             same = (a is b) or (a is None and b is None)
             if (a is None) != (b is None):
@@ -908,6 +913,11 @@ class Interp:
             if type(a) != type(b) or len(a) != len(b):
                 return False
             rs = [self.equal(x, y) for x, y in zip(a, b)]
+            return z3.And([to_z3(r) for r in rs]) if any(is_z3(r) for r in rs) else all(rs)
+        if isinstance(a, dict) and isinstance(b, dict):
+            if set(a) != set(b):
+                return False
+            rs = [self.equal(a[k], b[k]) for k in a]
             return z3.And([to_z3(r) for r in rs]) if any(is_z3(r) for r in rs) else all(rs)
         if isinstance(a, Obj) and isinstance(b, Obj):
             if (a.mod, a.cls) != (b.mod, b.cls):
